@@ -212,7 +212,19 @@ def replay_audit(case, cx):
     if cx.get("vals") is None:
         return dict(reproduced=True, what=cx.get("info"), key="audit/unbounded variable")
     tried = []
-    for vals in cx["vals"]:
+    # the solver's instances first (they include one in which unrelated supplies are zero), then generic instances of the same configuration, and generic instances in
+    # which only the supplies the violated clause talks about (plus single-cell protein / sugar, which share code) are non-zero
+    import random
+    from harness.C02_optimum import _concrete_vals
+    rng = random.Random(99)
+    extra = []
+    for i in range(4):
+        g = _concrete_vals(cfg, rng)
+        if i >= 2:
+            keep = [k for pre, ks in FOCUS.items() if cx["obligation"].startswith(pre) for k in ks] + ["area", "scp", "cs"]
+            g = {k: (v if (k in keep or k == "pins") else ([0.0] * len(v) if isinstance(v, list) else 0.0)) for k, v in g.items()}
+        extra.append(g)
+    for vals in list(cx["vals"]) + extra:
         try:
             pf, X = Q.run_real(cfg, vals, cx["growth"])
         except AssertionError as e:
